@@ -1,6 +1,4 @@
 package main
 
-func ruleReaderLoops(prog *Program, rep *Report) {}
-func ruleC06Extra(prog *Program, rep *Report)    {}
-func ruleC07Extra(prog *Program, rep *Report)    {}
-func ruleC09Extra(prog *Program, rep *Report)    {}
+func ruleC06Extra(prog *Program, rep *Report) {}
+func ruleC07Extra(prog *Program, rep *Report) {}
